@@ -2632,6 +2632,17 @@ class Engine:
             return self._call_model(hook, st, [v], {}, node)  # may raise Fork(node, ...) for a suspending await
         return v
 
+    def ev_Yield(self, node, st):
+        # (C05, wave 4) `yield v` in a generator under contract: only with a contract model calls['yield'](eng, st, [v], {}, node),
+        # which says what handing out v means (typically obligations on v under the path condition); the value sent back into
+        # the generator is None.  Without the model generators stay outside the subset (Undecided), as before.
+        hook = self.c.calls.get('yield')
+        if hook is None:
+            raise Undecided('expression not in the pyvc subset: Yield')
+        v = self.ev(node.value, st) if node.value is not None else None
+        hook(self, st, [v], {}, node)
+        return None
+
     def ev_NamedExpr(self, node, st):
         v = self.ev(node.value, st)
         self.assign(node.target, v, st)
